@@ -12,6 +12,10 @@ Clauses (DESIGN.md section 6, C15):
                0.01, 350, 374.15, 590, 800) x (p lattice + ulp neighbours of 0, 100 MPa, sat(T), b23p(T))
  (e) region    the two classifiers agree for t <= 350 and t > 374.15 degC away (1 %) from the curves
  (f) separator separated_steam_fraction in [0, 1] and non-decreasing in enthalpy on the stated grid
+ (g) history   repeatability / order independence: at every limit and ulp-neighbour state and a thinned lattice, every
+               (routine, bounds) variant of cowat / supst / sat / tsat, region, separated_steam_fraction and the
+               IAPWS-97 counterparts twice in a row and every ordered pair as f, g, f must reproduce bit for bit
+               the value the call has as the first call after a fresh import of both modules
 
 Known defect F10 (tsat raises for every input) would hide (c), the tsat part of (d) and all of (f): after the
 failure has been recorded, the case is continued under the documented remedy (sat called with the scalar inside the
@@ -34,7 +38,7 @@ RULE = ('compare / identity: every state of the liquid lattice (T x log-spaced p
         'x (p lattice to 120 MPa + ulp neighbours of 0, 100 MPa, sat(T), b23p(T)) for cowat and supst, the T set for '
         'sat, a log pressure lattice + neighbours of sat(0.01) and 22.12 MPa for tsat; classifiers: the same (T, p) set '
         'restricted to t <= 350 or t > 374.15 and further than 1 % from the curves; separator: h = 0..3.5 MJ/kg step '
-        '10 kJ/kg x P1 = 0.1..5 MPa step 0.1 x {single stage, every ordered pair (P1, P2) of the same grid, P2 below, equal to and above P1}.  One evaluation = one oracle '
+        '10 kJ/kg x P1 = 0.1..5 MPa step 0.1 x {single stage, every ordered pair (P1, P2) of the same grid, P2 below, equal to and above P1}; history: at every limit state (limit temperatures x limit pressures, both with ulp neighbours), the end points of tsat and a thinned lattice, up to 14 call variants x (twice in a row + every ordered pair as f, g, f) against the value after a fresh import.  One evaluation = one oracle '
         'decision on one state; distinct = distinct (clause, routine, state); non-trivial = the clause has an oracle at '
         'the state (classifier states near a curve or between 350 and 374.15 degC are executed but not judged)')
 ASSUMPTIONS = [
@@ -578,6 +582,76 @@ def chk_separator(T, p1, p2, hs=None, count=None):
 
 
 # ----------------------------------------------------------------------------------------------------------
+# (g) repeatability and order independence (WAVE3): a call's value may not depend on the calls before it
+# ----------------------------------------------------------------------------------------------------------
+
+HISTORY_H = 1.5e6       # enthalpy handed to separated_steam_fraction in the history sequences
+HISTORY_P = (1.0e5, 1.0e6, 2.3e7, 5.0e7)
+
+
+def fresh_libraries():
+    """Restore isolation: re-execute both modules, as a new process would."""
+    import importlib
+    import t2thermo
+    import IAPWS97
+    importlib.reload(t2thermo)
+    importlib.reload(IAPWS97)
+
+
+def history_states(T, tier):
+    """[((t, p), class)]: every limit / ulp-neighbour state of the bounds clause (all limit temperatures x all limit
+    pressures), the end points of tsat, and a thinned (T, p) lattice reaching outside the ranges."""
+    pts = {}
+    ts = list(T_OUTSIDE)
+    for n, v in T_LIMITS:
+        ts += R.around(v)
+    for t in ts:
+        lim = p_limits(T, t)
+        for n, v in lim:
+            for p in R.around(v):
+                pts[(t, p)] = '%s|p%s' % (t_position(t), position(p, lim))
+    try:
+        lo = float(T.sat(R.T_MIN))
+    except Exception:
+        lo = 611.2444
+    for v in (lo, R.PCRIT67):
+        for p in R.around(v):
+            pts.setdefault((100., p), 'p' + position(p, [('sat(0.01)', lo), ('pc67', R.PCRIT67)]))
+    for t in R.t_lattice(R.T_MAX, 100. if tier == 'quick' else 20.):
+        for p in HISTORY_P + (1.2 * R.P_MAX, 300.):
+            pts.setdefault((t, p), 'lattice')
+    return lo, sorted(pts.items())
+
+
+def history_variants(T, I, t, p, lo):
+    v = []
+    for b in (False, True):
+        v.append(('cowat(bounds=%s)' % b, lambda b=b: T.cowat(t, p, b)))
+        v.append(('supst(bounds=%s)' % b, lambda b=b: T.supst(t, p, b)))
+        v.append(('sat(bounds=%s)' % b, lambda b=b: T.sat(t, b)))
+        if p > 0.:
+            v.append(('tsat(bounds=%s)' % b, lambda b=b: T.tsat(p, b)))
+    v.append(('region', lambda: T.region(t, p)))
+    if lo <= p <= R.PCRIT67:
+        v.append(('separated_steam_fraction', lambda: T.separated_steam_fraction(HISTORY_H, p)))
+    v += [('IAPWS97.cowat', lambda: I.cowat(t, p)), ('IAPWS97.supst', lambda: I.supst(t, p)),
+          ('IAPWS97.sat', lambda: I.sat(t)), ('IAPWS97.region', lambda: I.region(t, p))]
+    return v
+
+
+def chk_history(T, I, t, p, cls, lo=None):
+    if lo is None:
+        lo = float(T.sat(R.T_MIN))
+    n, bad = R.history_pass(fresh_libraries, history_variants(T, I, t, p, lo), core.CaseTimeout)
+    viols = []
+    for name, prev, iso, got in bad:
+        viols.append(('C15|%s|result-depends-on-earlier-calls|after=%s|%s' % (name, prev, cls),
+                      'at (t, p) = (%r, %r): %s gives %s as the first call after a fresh import but %s when called '
+                      'after %s (hex floats; the routines are pure functions)' % (t, p, name, iso, got, prev)))
+    return viols, n
+
+
+# ----------------------------------------------------------------------------------------------------------
 # units
 # ----------------------------------------------------------------------------------------------------------
 
@@ -613,6 +687,10 @@ def units(tier):
         us.append(('bounds', ch[0], ch[-1]))
     us.append(('bounds-sat',))
     us.append(('bounds-tsat',))
+    n = len(history_states(libs()[0], tier)[1])
+    step = 6 if tier == 'quick' else 12
+    for a in range(0, n, step):
+        us.append(('history', a, min(n, a + step)))
     cfg = sep_configs(tier)
     for k, ch in enumerate(core.chunks(list(range(len(cfg))), 48 if tier == 'thorough' else 16)):
         us.append(('separator', ch[0], ch[-1] + 1))
@@ -701,6 +779,17 @@ def _run_unit(unit, tier, rec):
         for p in ps:
             v, oc = chk_bounds_tsat(T, p, lo, rec.count)
             report(rec, ('bounds-tsat', p), v, {'clause': 'bounds_tsat', 'p': p}, True, 'bounds-tsat-' + oc)
+    elif kind == 'history':
+        lo, sts = history_states(T, tier)
+        sts = sts[unit[1]:unit[2]]
+        n = 0
+        for (t, p), cls in sts:
+            v, n = chk_history(T, I, t, p, cls, lo)
+            rec.bulk(n, [('history', t, p, k) for k in range(n)],
+                     outcome='history-' + ('ok' if not v else 'differs'))
+            for sig, what in v:
+                rec.violation(sig, what, {'clause': 'history', 't': t, 'p': p, 'cls': cls})
+        rec.sample({'clause': 'history', 'states': len(sts), 'first': sts[0][0], 'calls_at_last_state': n})
     elif kind == 'separator':
         cfg = sep_configs(tier)[unit[1]:unit[2]]
         for p1, p2 in cfg:
@@ -743,6 +832,8 @@ def replay(case):
         return chk_bounds_tsat(T, case['p'], float(T.sat(R.T_MIN)))[0]
     if c == 'regions':
         return chk_regions(T, I, case['t'], case['p'])[0]
+    if c == 'history':
+        return chk_history(T, I, case['t'], case['p'], case['cls'])[0]
     if c == 'separator':
         return chk_separator(T, case['p1'], case['p2'])[0]
     if c == 'curve':
